@@ -228,6 +228,9 @@ func (d *DB) BeginReadTx() (mwdb.ReadTransaction, error) {
 	if err != nil {
 		return nil, err
 	}
+	// a pause point of its own: the snapshot exists, nothing has been read from it yet (whatever the
+	// caller takes from memory after this moment may belong to a later state than the snapshot)
+	d.C.read()
 	return &rtx{in: tx, c: d.C}, nil
 }
 
